@@ -218,6 +218,20 @@ static void gen_c02(uint64_t seed, uint64_t run, const std::string& tier, Plan& 
       else if (tm < 9 && !last.empty()) t = last.substr(0, g.r.below(last.size() + 1));
       else if (tm < 10) { t = g.text_valid(2, 2); t = g.mutate(g.mutate(t)); }
       else if (tm < 11) { size_t len = g.r.below(40); for (size_t j = 0; j < len; j++) t += (char)g.r.below(256); }
+      else if (g.r.chance(1, 3)) {   // numbers with very long mantissas and extreme exponents (slow float path)
+        size_t cnt = (size_t)g.r.range(1, 3);
+        t = "[";
+        for (size_t q = 0; q < cnt; q++) {
+          if (q) t += ',';
+          if (g.r.chance(1, 3)) t += '-';
+          size_t nd = (size_t)(g.r.chance(1, 2) ? g.r.range(18, 60) : g.r.range(300, 1300));
+          bool lead0 = g.r.chance(1, 3);
+          if (lead0) t += "0."; 
+          for (size_t d = 0; d < nd; d++) { t += (char)('0' + ((d == 0 && !lead0) ? 1 + g.r.below(9) : (g.r.chance(1, 4) ? 0 : g.r.below(10)))); if (!lead0 && d + 1 < nd && g.r.chance(1, 200)) { t += '.'; lead0 = true; } }
+          if (g.r.chance(3, 4)) { static const int ex[] = {-400, -340, -324, -310, -300, -30, -1, 0, 1, 30, 290, 300, 308, 309, 400}; t += 'e'; t += std::to_string(ex[g.r.below(15)] - (g.r.chance(1, 2) ? 0 : (int)nd)); }
+        }
+        if (g.r.chance(5, 6)) t += "]";
+      }
       else if (g.r.chance(1, 12)) { size_t cnt = (size_t)g.r.range(9000, 14000); t = "["; for (size_t q = 0; q < cnt; q++) { if (q) t += ','; t += std::to_string(q * 7919 % 100000); } if (g.r.chance(3, 4)) t += "]"; }
       else { model::GenOpts go2 = g.go; go2.max_children = 30; go2.max_depth = 2; std::string big; model::WriteOpts wo; wo.ws_rng = &g.r; wo.ws_max = 3; model::write(model::gen_value(g.r, go2), big, wo); t = big; }
       last = t;
